@@ -103,12 +103,20 @@ var bodyLens = []int{0, 1, 2, 3, 16, 32, 47, 48, 49, 95, 96, 97, 143, 144, 145, 
 func randHeader(r *h.Rand) *verifhook.Header {
 	hd := &verifhook.Header{MAC: r.Bytes(32)}
 	n := r.Intn(5)
+	maxArgs, wide := 5, r.Intn(6) == 0
+	if wide { // now and then: many stanzas, many arguments, long bodies
+		n = r.Intn(40)
+		maxArgs = h.Pick(r, []int{5, 16, 17, 33, 100})
+	}
 	for i := 0; i < n; i++ {
 		s := &verifhook.Stanza{Type: validStr(r)}
-		for j := r.Intn(5); j > 0; j-- {
+		for j := r.Intn(maxArgs); j > 0; j-- {
 			s.Args = append(s.Args, validStr(r))
 		}
 		s.Body = r.Bytes(h.Pick(r, bodyLens))
+		if wide && r.Intn(4) == 0 {
+			s.Body = r.Bytes(r.Intn(5000))
+		}
 		if len(s.Body) == 0 {
 			s.Body = nil
 		}
